@@ -1560,6 +1560,17 @@ where
     };
 
     match &self.cbor {
+      // A range constrains the length of a byte string only as the argument of .size
+      Value::Bytes(b) if !matches!(self.state.ctrl, Some(ControlOperator::SIZE)) => {
+        self.add_error(format!(
+          "expected integer to be in range {} {} value {} {}, got Bytes({:?})",
+          l,
+          if is_inclusive { "<=" } else { "<" },
+          if is_inclusive { "<=" } else { "<" },
+          u,
+          b
+        ));
+      }
       Value::Bytes(b) => {
         let len = b.len() as i128;
         if is_inclusive {
